@@ -41,6 +41,8 @@ RULE = (
     'returned by the first call must be unchanged after the second, and no call may modify its argument arrays. '
     'Representations: the same argument values as bool / 0-1 integer / 0.0-1.0 float / list / scalar cruise '
     'flags, scalars for constant profiles, strided views and read-only arrays. '
+    'Boundary coefficient sets: each of 13 single-coefficient boundary values (zero descent-thrust, fuel, drag and '
+    'temperature coefficients, neutral cruise factors, h_p_des=0) on descent and mixed profiles. '
     'A profile case is '
     'non-trivial when fuel was burnt; distinct = distinct case'
 )
@@ -150,8 +152,32 @@ SPEEDS = ['constant', 'accelerating']
 SEG_ARRAY = [1000.0, 50000.0, 5000.0, 200000.0]
 
 
+# Boundary values of single coefficients (case key 'pvar'): exact zeros and the neutral values the
+# BADA-3 formulas document, which make thrust or fuel flow exactly 0 (or a correction vanish) at some
+# points. The reference reads the same modified set, so the oracle is unchanged.
+PVARS = {
+    'c_tdes_low=0': {'c_tdes_low': 0.0},
+    'c_tdes_high=0': {'c_tdes_high': 0.0},
+    'c_tdes_low=c_tdes_high=0': {'c_tdes_low': 0.0, 'c_tdes_high': 0.0},
+    'c_f1=0': {'c_f1': 0.0},
+    'c_fcr=0': {'c_fcr': 0.0},
+    'c_fcr=1': {'c_fcr': 1.0},
+    'c_tcr=1': {'c_tcr': 1.0},
+    'c_tc3=0': {'c_tc3': 0.0},
+    'c_tc4=0': {'c_tc4': 0.0},
+    'c_tc5=0': {'c_tc5': 0.0},
+    'c_d0cr=0': {'c_d0cr': 0.0},
+    'c_d2cr=0': {'c_d2cr': 0.0},
+    'h_p_des=0': {'h_p_des': 0.0},
+}
+
+
 def _pset(case):
-    return PSETS[case['eng']][case['ps']]
+    s = PSETS[case['eng']][case['ps']]
+    pv = case.get('pvar')
+    if pv:
+        s = dict(s, par={**s['par'], **PVARS[pv]})
+    return s
 
 
 def _alt_value(s, a):
@@ -431,6 +457,29 @@ def sublattices(tier, seed):
                     var = dict(b, vary=a)
                     for inplace in (False, True):
                         cases += [dict(k='hist', a=b, b=var, inplace=inplace), dict(k='hist', a=var, b=b, inplace=inplace)]
+    # parameter sets with one coefficient on a boundary value (exact zeros / neutral values)
+    bcases = []
+    for eng in ENGINES:
+        for ps in (0, 1):
+            base = dict(eng=eng, ps=ps)
+            calls_ = [dict(base, k='pt', alt=a, dT=3, cr=2, m=1) for a in (1, 4)]
+            for pr in ('descent', 'mixed'):
+                for c in ('none', 'middle'):
+                    for it in (1, 10):
+                        prof = dict(base, n=5, prof=pr, spd='constant', cr=c, seg=50000.0, gs=0.0, m=1, it=it)
+                        calls_ += [dict(prof, k='ci'), dict(prof, k='cf')]
+                        calls_ += [dict(prof, k=k, est='ref', mtow='max', lf=1.0, res=1) for k in ('fr', 'fv')]
+            bcases += [dict(b, pvar=pv) for b in calls_ for pv in PVARS]
+    subs.append(
+        {
+            'name': 'parameter sets with one coefficient on a boundary value',
+            'axes': {
+                'eng': ENGINES, 'ps': [0, 1], 'coefficient': list(PVARS), 'entry': ['pt', 'ci', 'cf', 'fr', 'fv'],
+                'profile': ['descent', 'mixed'], 'cruise flags': ['none', 'middle'], 'n_iter': [1, 10],
+            },  # fmt: skip
+            'cases': bcases,
+        }
+    )
     # representations of the same argument values (flags as bool / 0-1 int / 0.0-1.0 float / list / one scalar;
     # constant profiles as scalars; strided views; read-only arrays): the oracle is unchanged
     rcases = []
